@@ -115,8 +115,8 @@ def _sweep_chunk(mask):
 
 def sweeps(tier):
     if tier != 'thorough':
-        return []
-    return [('all 4-node DAGs x durations x yields x windows x hash patterns', 64,
+        return [S.ladder_sweep(['plain'])]
+    return [S.ladder_sweep(['plain']), ('all 4-node DAGs x durations x yields x windows x hash patterns', 64,
              _sweep_chunk)]
 
 TECHNIQUE = ("property-based testing (Hypothesis scenario generator, virtual-time asyncio "
